@@ -53,6 +53,10 @@ pub struct RrScenario {
     pub responder: Resp,
     pub max_inbound: Option<usize>,
     pub fail_first_dial: bool,
+    /// the responder node refuses every inbound connection (inbound limit 0): the dialer's freshly accepted
+    /// connection dies immediately, possibly before the protocol has handled `ConnectionEstablished`
+    #[serde(default)]
+    pub remote_refuses: bool,
 }
 
 #[derive(Debug, Clone)]
@@ -193,9 +197,13 @@ impl Scenario for RrScenario {
         let a = w
             .add_node(21, ConfigBuilder::new().with_request_response_protocol(cfg_a).with_keep_alive_timeout(Duration::from_secs(60)))
             .expect("node a");
-        let b = w
-            .add_node(22, ConfigBuilder::new().with_request_response_protocol(cfg_b).with_keep_alive_timeout(Duration::from_secs(60)))
-            .expect("node b");
+        let mut builder_b = ConfigBuilder::new().with_request_response_protocol(cfg_b).with_keep_alive_timeout(Duration::from_secs(60));
+        if self.remote_refuses {
+            builder_b = builder_b.with_connection_limits(
+                litep2p::transport::ConnectionLimitsConfig::default().max_incoming_connections(Some(0)),
+            );
+        }
+        let b = w.add_node(22, builder_b).expect("node b");
         let peer_b = w.nodes[b].peer;
         let addr_b = w.nodes[b].address.clone();
         let (a_cmd, a_log) = spawn_requester(w, a, handle_a, peer_b);
@@ -353,31 +361,36 @@ pub fn scenarios(thorough: bool) -> Vec<RrScenario> {
                     continue;
                 }
                 let program: Vec<Op> = (0..n).map(|i| send(i, true)).collect();
-                v.push(RrScenario { connected, program, responder, max_inbound: None, fail_first_dial: false });
+                v.push(RrScenario { connected, program, responder, max_inbound: None, fail_first_dial: false, remote_refuses: false });
             }
             // cancel at any point of a 2-request program
             for pos in 1..=2usize {
                 let mut program = vec![send(0, true), send(1, true)];
                 program.insert(pos, Op::Cancel { idx: 0 });
-                v.push(RrScenario { connected, program, responder, max_inbound: None, fail_first_dial: false });
+                v.push(RrScenario { connected, program, responder, max_inbound: None, fail_first_dial: false, remote_refuses: false });
             }
             // connection drops after the requests were handed over
-            v.push(RrScenario { connected, program: vec![send(0, true), send(1, true), Op::CutLink], responder, max_inbound: None, fail_first_dial: false });
+            v.push(RrScenario { connected, program: vec![send(0, true), send(1, true), Op::CutLink], responder, max_inbound: None, fail_first_dial: false, remote_refuses: false });
         }
         // dial failure
-        v.push(RrScenario { connected, program: vec![send(0, true), send(1, true)], responder: Resp::Answer, max_inbound: None, fail_first_dial: true });
+        v.push(RrScenario { connected, program: vec![send(0, true), send(1, true)], responder: Resp::Answer, max_inbound: None, fail_first_dial: true, remote_refuses: false });
         // no dial allowed
-        v.push(RrScenario { connected, program: vec![send(0, false), send(1, true)], responder: Resp::Answer, max_inbound: None, fail_first_dial: false });
+        v.push(RrScenario { connected, program: vec![send(0, false), send(1, true)], responder: Resp::Answer, max_inbound: None, fail_first_dial: false, remote_refuses: false });
         // try_send
-        v.push(RrScenario { connected, program: vec![Op::Send { idx: 0, dial: true, size: 3, try_send: true }, Op::Send { idx: 1, dial: true, size: 3, try_send: true }], responder: Resp::Answer, max_inbound: None, fail_first_dial: false });
+        v.push(RrScenario { connected, program: vec![Op::Send { idx: 0, dial: true, size: 3, try_send: true }, Op::Send { idx: 1, dial: true, size: 3, try_send: true }], responder: Resp::Answer, max_inbound: None, fail_first_dial: false, remote_refuses: false });
+    }
+    // the remote refuses the connection right after it was negotiated
+    for n in 1..=2u8 {
+        let program: Vec<Op> = (0..n).map(|i| send(i, true)).collect();
+        v.push(RrScenario { connected: false, program, responder: Resp::Answer, max_inbound: None, fail_first_dial: false, remote_refuses: true });
     }
     // payload sizes
     for size in [0usize, 1, MAX_SIZE, MAX_SIZE + 1] {
-        v.push(RrScenario { connected: true, program: vec![Op::Send { idx: 0, dial: true, size, try_send: false }, send(1, true)], responder: Resp::Answer, max_inbound: None, fail_first_dial: false });
+        v.push(RrScenario { connected: true, program: vec![Op::Send { idx: 0, dial: true, size, try_send: false }, send(1, true)], responder: Resp::Answer, max_inbound: None, fail_first_dial: false, remote_refuses: false });
     }
     // inbound bound
     for responder in [Resp::Answer, Resp::Stall] {
-        v.push(RrScenario { connected: true, program: vec![send(0, true), send(1, true), send(2, true)], responder, max_inbound: Some(1), fail_first_dial: false });
+        v.push(RrScenario { connected: true, program: vec![send(0, true), send(1, true), send(2, true)], responder, max_inbound: Some(1), fail_first_dial: false, remote_refuses: false });
     }
     v
 }
